@@ -61,6 +61,22 @@ CLAIMED = {
          'helper changes its bookkeeping only after a successful callback. Behaviour after the fault stops is not decided.',
          'Trusted: clang 14 front end; callbacks modelled as external events; OV_EREAD distinguishable from OV_EOF/OV_HOLE by '
          'the excluded-constant domain.', 'DESIGN.md 4/C12'),
+ 'C11': ('transitive effect (mod-set) analysis through all backend slots (K3) + CFG dominance/control-dependence rules',
+         'The may-write set of the packet decoder contains no persistent decoder state, so a rejected or damaged packet cannot '
+         'have touched the accumulator; the accumulator functions write only the lapping/position fields; scratch is reset and '
+         'zeroed unconditionally before use; rejected packets never reach the accumulator; a sequence gap resets both '
+         'position counters together. Bit-identity of the output after a disturbance is not decided.',
+         'Trusted: clang 14 front end; K3 external effect table; type-based heap classes.', 'DESIGN.md 4/C11'),
+ 'C19': ('sibling/order rules over the lap entry points (resolved function-pointer arguments), staged path flags, K4 symbolic range analysis of the splice',
+         'Each lapped seek is proven to run exactly its plain counterpart, to hand failures up unchanged, to collect, seek, '
+         'prime, expose and splice in that order on every success path, and to confine the splice to min(n1,n2) samples with '
+         'the window that belongs to the chosen length. The cross-fade values and bit-identity after the region are not decided.',
+         'Trusted: clang 14 front end; symbolic upper bounds of K4.', 'DESIGN.md 4/C19'),
+ 'C20': ('CFG order and control-dependence rules, K4 ranges with symbolic bounds for the link loops, K3 single-writer rule for the flag',
+         'A refused toggle provably leaves the flag untouched and resets every link; the flag is stored for all links before any '
+         'call that can rebuild the decoder; the flag has a single writer and no second copy. (Units-of-measure typing of the '
+         'half-rate shift is added with the K7 engine.) Bit-identity with a linear half-rate decode is not decided.',
+         'Trusted: clang 14 front end; call graph; K4 intervals.', 'DESIGN.md 4/C20'),
 }
 
 NA = {
